@@ -143,13 +143,52 @@ pub fn expand_and_observe(req: &Request) -> Obs {
     };
     obs.text = out.to_string();
     obs.digest = digest(&canon(&out));
-    match syn::parse2::<syn::File>(out) {
+    // T2 twice: the token stream as returned, and its printed form (a real compiler does not
+    // honour None-delimited groups the way syn does, so output that only parses thanks to them
+    // is not well-formed for a user)
+    let reparsed = match syn::parse2::<syn::File>(out) {
+        Ok(f) => match syn::parse_str::<syn::File>(&obs.text) {
+            Ok(_) => Ok(f),
+            Err(e) => Err(syn::Error::new(
+                proc_macro2::Span::call_site(),
+                format!("{e} (in the printed output; the token stream only parses thanks to None-delimited groups)"),
+            )),
+        },
+        Err(e) => Err(e),
+    };
+    match reparsed {
         Err(e) => {
             obs.outcome = Outcome::Illformed;
             obs.detail = e.to_string();
         }
         Ok(file) => {
             obs.n_items = file.items.len();
+            // nested invocations (inside generated impls, consts, fn bodies): only when the
+            // input itself never mentions compile_error, so that they cannot be the user's
+            if !req.item.contains("compile_error") && !req.attr.contains("compile_error") {
+                use syn::visit::Visit;
+                struct Deep(Option<String>);
+                impl<'a> Visit<'a> for Deep {
+                    fn visit_macro(&mut self, m: &'a syn::Macro) {
+                        if is_compile_error_path(&m.path) {
+                            match compile_error_message(&m.tokens) {
+                                Some(msg) if !msg.trim().is_empty() => {}
+                                _ => {
+                                    if self.0.is_none() {
+                                        self.0 = Some(quote::ToTokens::to_token_stream(m).to_string());
+                                    }
+                                }
+                            }
+                        }
+                    }
+                }
+                let mut d = Deep(None);
+                d.visit_file(&file);
+                if let Some(bad) = d.0 {
+                    obs.outcome = Outcome::Nomsg;
+                    obs.detail = format!("compile_error! without a message: `{bad}`");
+                }
+            }
             let mut user_ce = user_ce;
             for it in &file.items {
                 match it {
